@@ -12,6 +12,7 @@ import (
 
 	"github.com/scrapli/scrapligo/driver/netconf"
 	"github.com/scrapli/scrapligo/driver/options"
+	"github.com/scrapli/scrapligo/transport"
 	"github.com/scrapli/scrapligo/util"
 
 	"verifgo/sim"
@@ -57,6 +58,30 @@ type c09case struct {
 	echo     bool
 	timeout  time.Duration
 	longline bool
+	// further ways into / around Open
+	pre         string // banner / MOTD text on the channel before the hello (part of the grammar: no '<')
+	auth        int    // 0 none; 1 in-channel ssh login with a password prompt; 2 in-channel login, no prompt (key auth)
+	loginBanner string // auth 1: text before the password prompt (discarded by the login loop)
+	writeFail   bool   // the transport fails the write of the client hello
+	forceSelf   bool   // WithNetconfForceSelfClosingTags
+	exclHdr     bool   // WithNetconfExcludeHeader
+	prefDirect  bool   // PreferredVersion assigned to the public field instead of through the option
+	secondRPC   bool
+	late        bool // the server sends its hello only after it has received the client's
+	cutAt       int  // >0: exactly two reads, cut after this many bytes
+	delayUs     int  // channel read delay
+	pauseUs     int  // transport: pause before every read returns (slow link)
+}
+
+const c09password = "s3cret"
+
+var c09banners = []string{
+	"Welcome to ACME router\nLast login: Thu Oct  1 10:11:12 2026 from 10.0.0.1\n",
+	"*** authorised use only ***\r\n\r\n",
+	"##\n#12\n",
+	"motd: hello capability session-id 42 ]] > \n\n",
+	"\n",
+	"Warning: Permanently added '10.0.0.1' (ED25519) to the list of known hosts.\r\n",
 }
 
 var c09extras = []string{
@@ -171,6 +196,32 @@ func genC09(seed uint64, cell int, thorough bool) c09case {
 	cs.segK = r.Range(2, 64)
 	cs.readSize = []int{8192, 8192, 65535, 64, 7, 1}[r.Intn(6)]
 	cs.echo = r.Bool()
+	// further dimensions (drawn from a forked stream so that earlier dimensions keep their distribution)
+	x := vlib.NewRng(seed ^ 0xc09c09)
+	if x.Chance(1, 3) {
+		cs.pre = x.Pick(c09banners)
+	}
+	if x.Chance(1, 5) {
+		cs.auth = 1 + x.Intn(2)
+		cs.echo = false
+		if cs.auth == 1 && x.Chance(1, 2) {
+			cs.loginBanner = x.Pick([]string{"Ubuntu 22.04 LTS\n", "\nACME SSH gateway\nuser@10.0.0.1's ", ""})
+		}
+	}
+	cs.delayUs = []int{20, 40, 40, 250}[x.Intn(4)]
+	if x.Chance(1, 6) {
+		cs.pauseUs = x.Range(30, 300)
+	}
+	cs.forceSelf = x.Chance(1, 4)
+	cs.exclHdr = x.Chance(1, 4)
+	cs.secondRPC = x.Chance(1, 2)
+	cs.writeFail = x.Chance(1, 25)
+	if x.Chance(1, 8) {
+		cs.prefDirect = true
+		if cs.pref == "" && x.Chance(1, 2) {
+			cs.pref = x.Pick([]string{"2.0", "1.0 ", "x", "1", "1.10"})
+		}
+	}
 	// keep a session below ~300 transport reads: byte-by-byte delivery only for short hellos
 	if minChunk := len(cs.render())/300 + 1; minChunk > 1 {
 		if cs.segClass == 1 {
@@ -216,6 +267,7 @@ func genC09raw(seed uint64, cell int) c09case {
 	r := vlib.NewRng(seed)
 	cs := genC09(seed, cell, false)
 	cs.kind = "raw"
+	cs.writeFail, cs.auth, cs.pre = false, 0, ""
 	base := ""
 	if cs.caps10 {
 		base += "<capability>" + c09base10 + "</capability>"
@@ -274,6 +326,10 @@ func genC09longline(seed uint64, cell int) c09case {
 	r := vlib.NewRng(seed)
 	cs := genC09(seed, cell, false)
 	cs.longline = true
+	cs.writeFail, cs.auth, cs.pre, cs.prefDirect = false, 0, "", false
+	if cs.pref != "" && cs.pref != "1.0" && cs.pref != "1.1" {
+		cs.pref = ""
+	}
 	cs.depth = 1000
 	if cs.hasDecl {
 		cs.decl = `xml version="1.0" encoding="UTF-8"?>`
@@ -297,11 +353,61 @@ func genC09longline(seed uint64, cell int) c09case {
 	return cs
 }
 
+// genC09late: the server keeps its hello back until it has seen the client's (RFC 6241 has both peers
+// send at once; scrapligo reads first, so such a server can only end in a clean timeout).
+func genC09late(seed uint64, cell int) c09case {
+	cs := genC09(seed, cell, false)
+	cs.late, cs.auth, cs.writeFail, cs.echo, cs.depth = true, 0, false, false, 1000
+	cs.timeout = 300 * time.Millisecond
+	return cs
+}
+
+// genC09cut: one fixed prefixed hello (banner, declaration, three capabilities, session-id) delivered
+// in exactly two reads, cut after k bytes: enumerated over EVERY k.
+func genC09cut(k, cell int) c09case {
+	cs := genC09witness(cell)
+	cs.pre = "Last login: Thu Oct  1 10:11:12 2026\n"
+	cs.cutAt = k
+	return cs
+}
+
+// genC09huge: a capability list of 600-1500 entries (one per yang module, as large routers send).
+func genC09huge(seed uint64, cell int) c09case {
+	r := vlib.NewRng(seed)
+	cs := genC09(seed, cell, false)
+	cs.auth, cs.writeFail, cs.depth, cs.pre = 0, false, 1000, ""
+	n := r.Range(600, 1500)
+	var uris []string
+	for i := 0; i < n; i++ {
+		uris = append(uris, fmt.Sprintf("http://example.com/yang/mod-%d?module=mod-%d&amp;revision=2024-0%d-1%d", i, i, 1+i%9, i%10))
+	}
+	ins := func(u string) {
+		k := r.Intn(len(uris) + 1)
+		uris = append(uris[:k], append([]string{u}, uris[k:]...)...)
+	}
+	if cs.caps10 {
+		ins(c09base10)
+	}
+	if cs.caps11 {
+		ins(c09base11)
+	}
+	cs.uris = uris
+	cs.wsAfter = make([]string, len(uris))
+	for i := range cs.wsAfter {
+		cs.wsAfter[i] = "\n"
+	}
+	cs.segClass, cs.segK = []int{0, 2}[r.Intn(2)], 4000+r.Intn(3000)
+	cs.readSize = []int{8192, 65535}[r.Intn(2)]
+	cs.timeout = 4 * time.Second
+	return cs
+}
+
 // genC09nohello: a well-framed first message that holds no hello element at all.
 func genC09nohello(seed uint64, cell int) c09case {
 	r := vlib.NewRng(seed)
 	cs := genC09(seed, cell, false)
 	cs.kind = "nohello"
+	cs.writeFail, cs.auth, cs.pre = false, 0, ""
 	cs.raw = []byte(r.Pick([]string{
 		`<rpc-reply xmlns="urn:ietf:params:xml:ns:netconf:base:1.0" message-id="101"><ok/></rpc-reply>`,
 		`<?xml version="1.0"?>` + "\n<notification><eventTime>2020</eventTime></notification>",
@@ -328,6 +434,7 @@ func (cs c09case) render() []byte {
 	}
 	var b bytes.Buffer
 	p := cs.pfxB()
+	b.WriteString(cs.pre)
 	if cs.hasDecl {
 		b.WriteString("<?" + cs.decl)
 	}
@@ -368,6 +475,15 @@ type c09obs struct {
 	rpcFailed  bool
 	rpcResult  string
 	closeHung  bool
+	closeCalls int
+	openCalls  int
+	passTyped  []string
+	rpc2Class  string
+	rpc2OK     bool
+	req2OK     bool
+	req2ID     int
+	optForce   bool
+	optExcl    bool
 	chunks     [][]byte
 	stream     []byte // hello ++ delimiter ++ suffix as emitted
 }
@@ -403,12 +519,48 @@ func runC09case(cs c09case) c09obs {
 		}
 		srv.Seg = sim.SegList(sizes)
 	}
-	srv.Start()
-	opts := []util.Option{options.WithCustomTransport(srv), options.WithAuthBypass(),
-		options.WithTimeoutOps(cs.timeout), options.WithReadDelay(40 * time.Microsecond),
+	if cs.cutAt > 0 {
+		srv.Seg = sim.SegList([]int{cs.cutAt})
+	}
+	var impl transport.Implementation = srv
+	var authSrv *sim.NCAuth
+	skipWritten := 0
+	switch {
+	case cs.auth > 0:
+		authSrv = sim.NewNCAuth(srv)
+		authSrv.Prompt = cs.auth == 1
+		authSrv.LoginBanner = []byte(cs.loginBanner)
+		impl = authSrv
+		authSrv.Start()
+		if cs.auth == 1 {
+			skipWritten = len(c09password) + 1
+		}
+	case cs.late:
+		sim.NewNCLate(srv)
+		srv.Start()
+	default:
+		srv.Start()
+	}
+	if cs.writeFail {
+		srv.WriteErrAfter = skipWritten
+	}
+	opts := []util.Option{options.WithCustomTransport(impl),
+		options.WithTimeoutOps(cs.timeout), options.WithReadDelay(time.Duration(c09or(cs.delayUs, 40)) * time.Microsecond),
 		options.WithPromptSearchDepth(cs.depth), options.WithTransportReadSize(cs.readSize)}
-	if cs.pref != "" {
+	srv.ReadPause = time.Duration(cs.pauseUs) * time.Microsecond
+	if cs.auth > 0 {
+		opts = append(opts, options.WithAuthUsername("u"), options.WithAuthPassword(c09password))
+	} else {
+		opts = append(opts, options.WithAuthBypass())
+	}
+	if cs.pref != "" && !cs.prefDirect {
 		opts = append(opts, options.WithNetconfPreferredVersion(cs.pref))
+	}
+	if cs.forceSelf {
+		opts = append(opts, options.WithNetconfForceSelfClosingTags())
+	}
+	if cs.exclHdr {
+		opts = append(opts, options.WithNetconfExcludeHeader())
 	}
 	d, err := netconf.NewDriver("h", opts...)
 	if err != nil {
@@ -416,6 +568,10 @@ func runC09case(cs c09case) c09obs {
 		return o
 	}
 	o.newErr = "nil"
+	if cs.prefDirect {
+		d.PreferredVersion = cs.pref
+	}
+	o.optForce, o.optExcl = d.ForceSelfClosingTags, d.ExcludeHeader
 	err = d.Open()
 	o.openClass = errClass(err)
 	if err != nil {
@@ -424,7 +580,14 @@ func runC09case(cs c09case) c09obs {
 	o.ver = d.SelectedVersion
 	o.caps = d.ServerCapabilities()
 	o.sid = d.SessionID()
-	o.sentOpen = srv.AllWritten()
+	written := func() []byte {
+		w := srv.AllWritten()
+		if len(w) >= skipWritten {
+			return w[skipWritten:]
+		}
+		return nil
+	}
+	o.sentOpen = written()
 	if err == nil {
 		// the adversarial stream's hello text need not match what the simulator speaks: no RPC there
 		if cs.kind == "grammar" {
@@ -433,6 +596,14 @@ func runC09case(cs c09case) c09obs {
 			if rerr == nil {
 				o.rpcFailed = r.Failed != nil
 				o.rpcResult = r.Result
+			}
+			o.sentAll = written()
+			if cs.secondRPC && rerr == nil {
+				r2, rerr2 := d.Get("")
+				o.rpc2Class = errClass(rerr2)
+				if rerr2 == nil {
+					o.rpc2OK = r2.Failed == nil && strings.Contains(r2.Result, "<x>c09</x>")
+				}
 			}
 		}
 		done := make(chan struct{})
@@ -443,30 +614,58 @@ func runC09case(cs c09case) c09obs {
 			o.closeHung = true
 		}
 	}
-	o.sentAll = srv.AllWritten()
+	if o.sentAll == nil {
+		o.sentAll = written()
+	}
 	srv.Snapshot(func() {
 		o.clientHello = append([]byte{}, srv.ClientHello...)
 		o.srvVersion = srv.Version
 		o.nreq = len(srv.Requests)
+		o.closeCalls = srv.CloseCalls
+		o.openCalls = srv.OpenCalls
+		if authSrv != nil {
+			for _, p := range authSrv.PassTyped {
+				o.passTyped = append(o.passTyped, string(p))
+			}
+		}
 		if o.nreq > 0 {
 			o.frameOK = srv.Requests[0].FrameOK
 			o.reqRaw = srv.Requests[0].Raw
 			o.reqID = srv.Requests[0].MessageID
 		}
+		if o.nreq > 1 {
+			o.req2OK = srv.Requests[1].FrameOK
+			o.req2ID = srv.Requests[1].MessageID
+		}
 		o.badBytes = append([]byte{}, srv.BadBytes...)
-		stream := srv.EmittedBytes()
+		base := 0
+		if authSrv != nil {
+			base = authSrv.HelloAt
+		}
+		all := srv.EmittedBytes()
+		if base < 0 || base > len(all) {
+			return
+		}
+		if cs.late && len(all) == 0 {
+			return
+		}
+		stream := all[base:]
 		if len(stream) > n {
 			stream = stream[:n]
 		}
 		o.stream = append([]byte{}, stream...)
-		pos := 0
+		abs, pos := 0, 0
 		for _, sz := range srv.ReadLog {
-			if pos >= n {
+			if abs < base {
+				abs += sz
+				continue
+			}
+			if pos >= len(stream) {
 				break
 			}
 			end := pos + sz
-			if end > n {
-				end = n // cannot happen (barrier after the suffix); be safe
+			if end > len(stream) {
+				end = len(stream)
 			}
 			o.chunks = append(o.chunks, stream[pos:end])
 			pos = end
@@ -497,7 +696,14 @@ func c09strList(xs []string) string {
 
 func (cs c09case) request(o c09obs) string {
 	if cs.kind == "grammar" {
-		return strings.Join([]string{"c09", "open", c09hex(cs.pref), strconv.Itoa(cs.depth), c09optHex(cs.hasDecl, cs.decl),
+		flags := "-"
+		if cs.auth > 0 {
+			flags += "a"
+		}
+		if cs.writeFail {
+			flags += "w"
+		}
+		return strings.Join([]string{"c09", "open", c09hex(cs.pref), strconv.Itoa(cs.depth), flags, c09hex(cs.pre), c09optHex(cs.hasDecl, cs.decl),
 			c09hex(cs.pfx), c09hex(cs.attrs), c09hex(cs.ws[0]), c09hex(cs.ws[1]), c09hex(cs.ws[2]), c09hex(cs.ws[3]), c09hex(cs.ws[4]),
 			c09strList(cs.uris), c09strList(cs.wsAfter), c09optHex(cs.hasSid, cs.sid), c09hex(cs.suffix), vlib.HexList(o.chunks)}, " ")
 	}
@@ -617,6 +823,18 @@ func runC09(c *ctx) {
 	res.Rule = "real netconf.NewDriver(...).Open() + first GetConfig over sim.NCServer: the 12 cells {advertised subset of base:1.0/1.1} x {preferred none/1.0/1.1} enumerated round-robin x hello layouts of the grammar (declaration, namespace prefix, attribute text, inter-element white space incl. CR, 0-300 extra capability URIs incl. query strings / near-miss base URIs / duplicates / empty, session-id absent / 0 / 2^32-1 / 2^63-1 / beyond / leading zeros) x trailing bytes x read segmentations (whole, 1-byte, fixed, random, cut inside the delimiter) x transport read sizes 1..65535 x search depths 8..5000 x echo on/off; plus well-framed non-hello messages, an adversarial stream of malformed hellos (model of the code only) and invalid preferred-version strings; plus HISTORIES on one driver object (8 templates: getters before the first Open, between sessions and after Close; Open/Close/Open against servers advertising different capability sets, versions and session-ids; a failing Open followed by further Opens), each run twice (with and without the getter calls). non-trivial = in-domain grammar case (theorem hypotheses hold on the observed chunks) whose hello has a prefix, an extra capability, a session-id or more than one read; distinct by case seed"
 	if c.replay != "" {
 		f := strings.Fields(c.replay)
+		if len(f) >= 1 && f[0] == "c09ctor" {
+			c09constructor(c)
+			return
+		}
+		if len(f) >= 1 && f[0] == "c09system" {
+			c09system(c)
+			return
+		}
+		if len(f) >= 1 && f[0] == "c09pref" {
+			c09options(c)
+			return
+		}
 		if len(f) >= 2 && f[0] == "c09hist" {
 			seed, _ := strconv.ParseUint(f[1], 10, 64)
 			c09histories(c, []c09hist{genC09hist(seed)})
@@ -631,6 +849,12 @@ func runC09(c *ctx) {
 				cs = genC09witness(cell)
 			case "longline":
 				cs = genC09longline(seed, cell)
+			case "late":
+				cs = genC09late(seed, cell)
+			case "huge":
+				cs = genC09huge(seed, cell)
+			case "cut":
+				cs = genC09cut(int(seed), cell)
 			case "raw":
 				cs = genC09raw(seed, cell)
 			case "nohello":
@@ -646,6 +870,8 @@ func runC09(c *ctx) {
 	}
 	c09Internal(c)
 	c09options(c)
+	c09constructor(c)
+	c09system(c)
 	rxDiff(c, []string{"Netconf.hello", "Netconf.capability", "Netconf.sessionID", "Netconf.v1Dot0Delim"}, c.n(250, 3000))
 	var cases []c09case
 	// corpus: the F7 witness first (prefixed session-id), in every successful cell
@@ -670,6 +896,17 @@ func runC09(c *ctx) {
 	}
 	for cell := 0; cell < 12; cell++ {
 		cases = append(cases, genC09longline(c.rng.U64(), cell))
+		cases = append(cases, genC09late(c.rng.U64(), cell))
+	}
+	for i := 0; i < c.n(2, 24); i++ {
+		cases = append(cases, genC09huge(c.rng.U64(), int(c.rng.U64()%12)))
+	}
+	{ // a hello split at every byte (two reads), cells round-robin
+		probe := genC09cut(1, 3)
+		total := len(probe.render()) + len(c09delim) + len(probe.suffix)
+		for k := 1; k < total; k++ {
+			cases = append(cases, genC09cut(k, k%12))
+		}
 	}
 	c09check(c, cases)
 	hs := []c09hist{genC09histWitness()}
@@ -758,6 +995,50 @@ func c09modelClass(ans string) string {
 	return f[0]
 }
 
+// c09constructor: NewDriver paths that no built-in option reaches.
+func c09constructor(c *ctx) {
+	res := c.res
+	// (1) a user-defined option that fails only on the netconf driver: NewDriver must hand the error back
+	bad := func(o interface{}) error {
+		if _, ok := o.(*netconf.Driver); ok {
+			return fmt.Errorf("%w: c09 user option", util.ErrBadOption)
+		}
+		return util.ErrIgnoredOption
+	}
+	srv := sim.NewNCServer(true, true)
+	d, err := netconf.NewDriver("h", options.WithCustomTransport(srv), options.WithAuthBypass(), bad)
+	res.Case("constructor:user-option-error", true)
+	res.InDomain++
+	if errClass(err) != "badoption" || d != nil {
+		res.Fail("oracle", "c09ctor user-option", fmt.Sprintf("NewDriver with an option failing on *netconf.Driver returned (%v, %s)", d != nil, errClass(err)), "constructor:user-option-error")
+	}
+	// (2) the transport cannot be opened: Open hands the error back, nothing is negotiated, getters stay zero
+	m := &sim.NCMulti{}
+	d, err = netconf.NewDriver("h", options.WithCustomTransport(m), options.WithAuthBypass(), options.WithTimeoutOps(300*time.Millisecond))
+	res.Case("constructor:transport-open-fails", true)
+	res.InDomain++
+	if err != nil {
+		res.Fail("oracle", "c09ctor open-fails", "NewDriver failed: "+err.Error(), "constructor:newdriver")
+		return
+	}
+	oerr := d.Open()
+	if oerr == nil || d.SelectedVersion != "" || len(d.ServerCapabilities()) != 0 || d.SessionID() != 0 || d.ServerHasCapability(c09base10) {
+		res.Fail("oracle", "c09ctor open-fails", fmt.Sprintf("transport Open fails: netconf Open returned %v, selected %q caps %d sid %d", oerr, d.SelectedVersion, len(d.ServerCapabilities()), d.SessionID()), "constructor:transport-open-fails")
+	}
+	// (3) default construction (system transport, not opened): the ssh arguments are marked as a NETCONF connection
+	d, err = netconf.NewDriver("h")
+	res.Case("constructor:default-system-transport", true)
+	res.InDomain++
+	if err != nil {
+		res.Fail("oracle", "c09ctor default", "NewDriver(host) failed: "+err.Error(), "constructor:newdriver")
+		return
+	}
+	sys, ok := d.Transport.Impl.(*transport.System)
+	if !ok || sys.SSHArgs == nil || !sys.SSHArgs.NetconfConnection {
+		res.Fail("oracle", "c09ctor default", "NewDriver(host): the system transport's SSHArgs.NetconfConnection is not set (ssh would not request the netconf subsystem)", "constructor:netconf-connection-flag")
+	}
+}
+
 func c09check(c *ctx, cases []c09case) {
 	res := c.res
 	obs := make([]c09obs, len(cases))
@@ -765,15 +1046,24 @@ func c09check(c *ctx, cases []c09case) {
 	for i := range all {
 		all[i] = i
 	}
-	c09runAll(cases, obs, all, 16)
+	t0 := time.Now()
+	c09runAll(cases, obs, all, vlib.Conc(16))
+	tSess := time.Since(t0)
 	lines := make([]string, len(cases))
 	wire := make([]string, len(cases))
 	for i, cs := range cases {
 		lines[i] = cs.request(obs[i])
 		wire[i] = c09wireLine(obs[i])
 	}
+	t1 := time.Now()
+	if f := os.Getenv("C09_DUMP"); f != "" {
+		_ = os.WriteFile(f, []byte(strings.Join(append(append([]string{}, lines...), wire...), "\n")+"\n"), 0o644)
+	}
 	ans := c.ask(append(lines, wire...))
 	wans := ans[len(cases):]
+	if len(cases) > 50 {
+		res.Note("timing: %d sessions against the real driver %.1fs, model answers %.1fs", len(cases), tSess.Seconds(), time.Since(t1).Seconds())
+	}
 	// A timeout is the only wall-clock dependent observable. Where the implementation timed out but
 	// the model (which knows exactly which reads arrived) says the read completes, or the first RPC
 	// timed out, the machine may simply have been slow: run those cases again, alone and with a
@@ -816,8 +1106,17 @@ func c09check(c *ctx, cases []c09case) {
 		if cs.longline {
 			caseLine = fmt.Sprintf("c09case longline %d %d", cs.seed, cs.cell)
 		}
+		if cs.late {
+			caseLine = fmt.Sprintf("c09case late %d %d", cs.seed, cs.cell)
+		}
+		if len(cs.uris) >= 600 {
+			caseLine = fmt.Sprintf("c09case huge %d %d", cs.seed, cs.cell)
+		}
 		if cs.seed == 0 {
 			caseLine = fmt.Sprintf("c09case witness 0 %d", cs.cell)
+		}
+		if cs.cutAt > 0 {
+			caseLine = fmt.Sprintf("c09case cut %d %d", cs.cutAt, cs.cell)
 		}
 		res.Count("kind:" + cs.kind)
 		res.Count(fmt.Sprintf("cell:%d%d/%q", c09b(cs.caps10), c09b(cs.caps11), cs.pref))
@@ -829,6 +1128,30 @@ func c09check(c *ctx, cases []c09case) {
 			continue
 		}
 		impl := o.tuple()
+		if cs.writeFail && impl.class != "ok" && impl.class != "netconf" && impl.class != "timeout" {
+			impl.class = "transport" // sim.ErrWrite is not one of the library's error classes
+		}
+		// every failing Open must have torn the transport down again (driver.go: Open closes the channel on any failure)
+		if o.openClass != "nil" && o.openCalls > 0 && o.closeCalls == 0 {
+			res.Fail("oracle", caseLine, fmt.Sprintf("Open failed with %s (%s) but the transport was left open (Open calls %d, Close calls %d)", o.openClass, o.openErr, o.openCalls, o.closeCalls), "failed-open-leaves-transport-open")
+		}
+		res.Count(fmt.Sprintf("auth:%d", cs.auth))
+		res.Count(fmt.Sprintf("read-delay-us:%d slow-link:%v", c09or(cs.delayUs, 40), cs.pauseUs > 0))
+		if cs.pre != "" {
+			res.Count("banner-before-hello")
+		}
+		if cs.prefDirect {
+			res.Count("pref-assigned-to-field")
+		}
+		if cs.writeFail {
+			res.Count("write-failure-at-client-hello")
+		}
+		if cs.cutAt > 0 {
+			res.Count("two-reads-cut-at-every-byte")
+		}
+		if cs.auth == 1 && (len(o.passTyped) != 1 || o.passTyped[0] != c09password) {
+			res.Fail("oracle", caseLine, fmt.Sprintf("in-channel login: server received password lines %q", o.passTyped), "login-password")
+		}
 		parts := strings.Split(ans[i], " | ")
 		var dom bool
 		var spec, scan, rx c09tuple
@@ -898,6 +1221,15 @@ func c09check(c *ctx, cases []c09case) {
 			}
 			continue
 		}
+		if cs.late {
+			// the server waits for the client's hello, the client for the server's: the only clean outcome is a timeout
+			res.Count("late-hello:" + impl.class)
+			res.InDomain++
+			if impl.class != "timeout" || o.closeCalls == 0 {
+				res.Fail("oracle", caseLine, fmt.Sprintf("server sends its hello only after the client's: Open returned %s (%s), transport Close calls %d; expected a timeout error and a closed transport", impl.class, o.openErr, o.closeCalls), "late-hello:"+impl.class)
+			}
+			continue
+		}
 		if cs.longline {
 			// outside the theorem's window hypothesis by construction; the property itself has no such caveat
 			res.Count("window-probe:total")
@@ -925,7 +1257,7 @@ func c09check(c *ctx, cases []c09case) {
 		// ---- oracle: the property on the implementation
 		tag := fmt.Sprintf(" prefixed=%v", prefixed)
 		wantVer := c09table(cs.caps10, cs.caps11, cs.pref)
-		if (spec.class == "ok") != (wantVer != "") && !(cs.hasSid && spec.class == "netconf" && wantVer != "") {
+		if !cs.writeFail && (spec.class == "ok") != (wantVer != "") && !(cs.hasSid && spec.class == "netconf" && wantVer != "") {
 			res.Fail("machinery", caseLine, fmt.Sprintf("Lean spec %v disagrees with the Go table %q", spec, wantVer), "spec-vs-table")
 			continue
 		}
@@ -961,13 +1293,29 @@ func c09check(c *ctx, cases []c09case) {
 			res.Fail("oracle", caseLine, fmt.Sprintf("server derived version %s from the hellos, client selected %s", o.srvVersion, impl.ver), "peers-disagree")
 			continue
 		}
-		if o.nreq != 1 || !o.frameOK || len(o.badBytes) > 0 || o.reqID == 0 || !bytes.Contains(o.reqRaw, []byte("<get-config>")) {
+		if (o.nreq != 1 && !(cs.secondRPC && o.nreq == 2)) || !o.frameOK || len(o.badBytes) > 0 || o.reqID == 0 || !bytes.Contains(o.reqRaw, []byte("<get-config>")) {
 			res.Fail("oracle", caseLine, fmt.Sprintf("first RPC after Open: server (speaking %s) decoded %d request(s) frameOK=%v bad=%q raw=%q", o.srvVersion, o.nreq, o.frameOK, o.badBytes, o.reqRaw), "framing:"+impl.ver)
 			continue
 		}
 		if o.rpcClass != "nil" || o.rpcFailed || !strings.Contains(o.rpcResult, "<x>c09</x>") {
 			res.Fail("oracle", caseLine, fmt.Sprintf("first RPC after Open (version %s, echo %v): error class %s failed=%v result %q", impl.ver, cs.echo, o.rpcClass, o.rpcFailed, o.rpcResult), "first-rpc:"+impl.ver)
 			continue
+		}
+		res.Count(fmt.Sprintf("rpc-options: force-self-closing=%v exclude-header=%v", cs.forceSelf, cs.exclHdr))
+		if o.optForce != cs.forceSelf || o.optExcl != cs.exclHdr {
+			res.Fail("oracle", caseLine, fmt.Sprintf("options did not land: ForceSelfClosingTags=%v (asked %v) ExcludeHeader=%v (asked %v)", o.optForce, cs.forceSelf, o.optExcl, cs.exclHdr), "netconf-option-not-applied")
+			continue
+		}
+		if bytes.HasPrefix(o.reqRaw, []byte("<?xml")) == cs.exclHdr || bytes.Contains(o.reqRaw, []byte("<running/>")) != cs.forceSelf {
+			res.Fail("oracle", caseLine, fmt.Sprintf("first RPC with force-self-closing=%v exclude-header=%v was sent as %q", cs.forceSelf, cs.exclHdr, o.reqRaw), "rpc-option-effect")
+			continue
+		}
+		if cs.secondRPC {
+			res.Count("second-rpc")
+			if o.rpc2Class != "nil" || !o.rpc2OK || !o.req2OK || o.req2ID != o.reqID+1 {
+				res.Fail("oracle", caseLine, fmt.Sprintf("second RPC after Open (version %s): error class %s ok=%v; server decoded frameOK=%v message-id %d after %d", impl.ver, o.rpc2Class, o.rpc2OK, o.req2OK, o.req2ID, o.reqID), "second-rpc:"+impl.ver)
+				continue
+			}
 		}
 		wf := strings.Fields(wans[i])
 		if len(wf) != 3 {
@@ -997,6 +1345,13 @@ func c09knownRecorded(id string) bool {
 		}
 	}
 	return false
+}
+
+func c09or(v, d int) int {
+	if v == 0 {
+		return d
+	}
+	return v
 }
 
 func c09b(b bool) int {
